@@ -186,6 +186,14 @@ Proof.
   exists tm. split; [done|]. split; [done|]. by apply Hc.
 Qed.
 
+Lemma choose_hint (p : Z) (l : list (Z * list Z)) tc :
+  In (p, tc) l -> (forall l', In (p, l') l -> l' = tc) -> choose p l = Some (p, tc).
+Proof.
+  intros Hin Hu. unfold choose. destruct (List.find (fun c => fst c =? p) l) as [[q lq]|] eqn:Ef.
+  - apply find_some in Ef as [Hq He]. cbn in He. apply Z.eqb_eq in He. subst q. by rewrite (Hu lq Hq).
+  - exfalso. pose proof (find_none _ _ Ef (p, tc) Hin) as Hn. cbn in Hn. by rewrite Z.eqb_refl in Hn.
+Qed.
+
 Lemma resolve_honest_wins_lt H hard v env raws hint cps p tc tfilt bans res :
   In (p, tc) cps -> (forall l, In (p, l) cps -> l = tc) ->
   peer_hard_bad hard tc = false ->
@@ -195,7 +203,9 @@ Lemma resolve_honest_wins_lt H hard v env raws hint cps p tc tfilt bans res :
   ~ In p bans /\
   (forall l, res = Some l -> forall (i : nat) x y, l !! i = Some x -> tc !! i = Some y -> x = y) /\
   (forall l, res = Some l -> forall q lq (i : nat) x y,
-      In (q, lq) cps -> lq !! i = Some x -> tc !! i = Some y -> x <> y -> In q bans).
+      In (q, lq) cps -> lq !! i = Some x -> tc !! i = Some y -> x <> y -> In q bans) /\
+  (* when the map's choice falls on the honest peer, its list is the one returned *)
+  (hint = p -> forall l, res = Some l -> l = tc).
 Proof.
   intros Hp Huniq Hhard Hlen Hhon.
   unfold resolve_conflict, resolve_conflict_ix. cbv zeta.
@@ -215,13 +225,16 @@ Proof.
   rewrite (match_ne cps1) by (eapply In_ne; exact Hp1).
   destruct (check_sanity cps1 v) as [|d|] eqn:Es.
   - (* all agree *)
-    intros [= <- <-]. split; [done|]. split.
+    intros [= <- <-]. split; [done|]. split; [|split].
     + intros l Hl. destruct (choose hint cps1) as [[c lc]|] eqn:Ec; [|done].
       cbn in Hl. injection Hl as <-. apply choose_In in Ec.
       intros i x y Hx Hy. exact (check_sanity_all cps1 v Es c lc p tc i x y Ec Hp1 Hx Hy).
     + intros l _ q lq i x y Hq Hx Hy Hne.
       destruct (Hb0 q lq Hq) as [Hb|Hq1]; [done|].
       exfalso. apply Hne. exact (check_sanity_all cps1 v Es q lq p tc i x y Hq1 Hp1 Hx Hy).
+    + intros -> l Hl. rewrite (choose_hint p cps1 tc Hp1) in Hl.
+      * cbn in Hl. congruence.
+      * intros l' Hl'. apply Huniq. by apply remove_peers_In in Hl' as [Hl' _].
   - (* a first differing checkpoint *)
     destruct (check_sanity_diff cps1 v d Es) as (j & -> & Hj & Hagree).
     assert (Hjtc : (j < length tc)%nat).
@@ -235,7 +248,7 @@ Proof.
     destruct (Hhon j Hjtc Es) as (tm & Hh & Hgood & Hcons). fold startH in Hh, Hgood.
     destruct (get_headers v startH raws) as [hs n] eqn:Eg. cbn [fst snd] in Hh, Hgood.
     destruct (negb (all_eq (List.map (fun c : Z * cfmsg => m_prev (snd c)) hs))).
-    { intros [= <- <-]. split; [done|]. split; intros; discriminate. }
+    { intros [= <- <-]. split; [done|]. split; [|split]; intros; discriminate. }
     unfold full_ix.
     destruct (settle_all env startH hs (seq 0 (zn n)) []) as [r bans1] eqn:Esa.
     assert (Hg : forall i : nat, In i (seq 0 (zn n)) -> good_idx env tfilt tm startH p (Z.of_nat i)).
@@ -243,7 +256,7 @@ Proof.
     destruct (settle_all_safe env tfilt tm startH p (seq 0 (zn n)) hs [] r bans1 Hg Hh (fun x => x) Esa)
       as (Hpb1 & _ & Hres).
     destruct r as [hs'|].
-    2:{ intros [= <- <-]. split; [rewrite in_app_iff; tauto|]. split; intros; discriminate. }
+    2:{ intros [= <- <-]. split; [rewrite in_app_iff; tauto|]. split; [|split]; intros; discriminate. }
     destruct Hres as (Hsub & Hh' & _ & Hrem).
     set (cps3 := remove_peers bans1 cps2).
     set (silent := List.map fst (List.filter (fun c : Z * list Z => negb (mem (fst c) (List.map fst hs'))) cps3)).
@@ -276,9 +289,15 @@ Proof.
     { rewrite !in_app_iff. tauto. }
     destruct (check_sanity cps5 v) as [|d'|] eqn:Es5.
     + destruct (choose hint cps5) as [[c lc]|] eqn:Ec.
-      2:{ intros [= <- <-]. split; [done|]. split; intros; discriminate. }
-      apply choose_In in Ec.
-      intros [= <- <-]. split; [done|]. split.
+      2:{ intros [= <- <-]. split; [done|]. split; [|split]; intros; discriminate. }
+      pose proof Ec as Ec0. apply choose_In in Ec.
+      intros [= <- <-]. split; [done|]. split; [|split].
+      3:{ intros -> l [= <-]. rewrite (choose_hint p cps5 tc Hp5) in Ec0.
+          - by injection Ec0 as _ <-.
+          - intros l' Hl'. apply Huniq. unfold cps5, cps4, cps3, cps2 in Hl'.
+            apply remove_peers_In in Hl' as [Hl' _]. apply remove_peers_In in Hl' as [Hl' _].
+            apply remove_peers_In in Hl' as [Hl' _]. apply filter_In in Hl' as [Hl' _].
+            by apply remove_peers_In in Hl' as [Hl' _]. }
       * intros l [= <-]. cbn [snd]. intros i x y Hx Hy.
         exact (check_sanity_all cps5 v Es5 c lc p tc i x y Ec Hp5 Hx Hy).
       * intros l _ q lq i x y Hq Hx Hy Hne. rewrite !in_app_iff.
@@ -301,9 +320,9 @@ Proof.
         assert (Hq5 : In (q, lq) cps5).
         { apply remove_peers_In. done. }
         exfalso. apply Hne. exact (check_sanity_all cps5 v Es5 q lq p tc i x y Hq5 Hp5 Hx Hy).
-    + intros [= <- <-]. split; [done|]. split; intros; discriminate.
-    + intros [= <- <-]. split; [done|]. split; intros; discriminate.
-  - intros [= <- <-]. split; [done|]. split; intros; discriminate.
+    + intros [= <- <-]. split; [done|]. split; [|split]; intros; discriminate.
+    + intros [= <- <-]. split; [done|]. split; [|split]; intros; discriminate.
+  - intros [= <- <-]. split; [done|]. split; [|split]; intros; discriminate.
 Qed.
 
 Lemma resolve_honest_wins_eq H hard v env raws hint cps p tc tfilt bans res :
@@ -317,8 +336,10 @@ Lemma resolve_honest_wins_eq H hard v env raws hint cps p tc tfilt bans res :
   (forall l, res = Some l -> forall q lq (i : nat) x y,
       In (q, lq) cps -> lq !! i = Some x -> tc !! i = Some y -> x <> y -> In q bans).
 Proof.
-  intros Hp Huniq Hhard Hlen Hhon. apply (resolve_honest_wins_lt H hard v env raws hint cps p tc tfilt); try done.
-  by apply honest_serves_lt_of.
+  intros Hp Huniq Hhard Hlen Hhon Hr.
+  destruct (resolve_honest_wins_lt H hard v env raws hint cps p tc tfilt bans res Hp Huniq Hhard Hlen
+              (honest_serves_lt_of H hard v env raws cps p tc tfilt Hhon) Hr) as (A & B & C & _).
+  done.
 Qed.
 
 Theorem resolve_honest_wins H hard v env raws hint cps p tc tfilt :
